@@ -291,6 +291,8 @@ def _inline_at(caller: ast.AST, stmt: ast.stmt, call: ast.Call, helper: ast.Func
                 if c is target_in_clone:
                     return ast.copy_location(ret, c) if isinstance(ret, ast.Name) else ret
                 return self.generic_visit(c)
+        if not isinstance(ret, ast.Name):
+            _reorder_lines([ret], stmt.lineno)          # the returned expression now sits in the statement at the call site
         new_stmt = R2().visit(marker)
         _reorder_lines(pre, stmt.lineno)
         return pre + [new_stmt]
